@@ -1031,6 +1031,22 @@ impl<'a> VisitMut for Rewriter<'a> {
                 self.logr("R32", line, format!("`.iter().all(pred)` -> {}(&.., pred)", to));
                 *e = parse_quote!(#f(&#x, #c));
             }
+            Expr::MethodCall(mc) if mc.method == "fold" && mc.args.len() == 2
+                && matches!(&*mc.receiver, Expr::MethodCall(im) if im.method == "iter" && im.args.is_empty())
+                && self.expr_map.iter().any(|(f, _)| f == "__adapter_iter_fold") =>
+            {
+                // R32 (fold): `X.iter().fold(init, f)` -> stand-in with a contract over f's own contract
+                let to = self.expr_map.iter().find(|(f, _)| f == "__adapter_iter_fold").map(|(_, t)| t.clone()).unwrap();
+                let f = syn::Ident::new(&to, proc_macro2::Span::call_site());
+                let x = match &*mc.receiver { Expr::MethodCall(im) => im.receiver.clone(), _ => unreachable!() };
+                let init = mc.args[0].clone();
+                let g = mc.args[1].clone();
+                let pn = syn::Ident::new(&format!("vx_pred{}", self.pred_counter), proc_macro2::Span::call_site());
+                self.pred_counter += 1;
+                self.logr("R32", line, format!("`.iter().fold(init, f)` -> let {} = f; {}(&.., init, {})", pn, to, pn));
+                self.pending_lets.push(parse_quote!(let #pn = #g;));
+                *e = parse_quote!(#f(&#x, #init, #pn));
+            }
             Expr::MethodCall(mc) if mc.method == "map" && mc.args.len() == 1
                 && matches!(&*mc.receiver, Expr::MethodCall(im) if im.method == "split" && im.args.len() == 1)
                 && self.expr_map.iter().any(|(f, _)| f == "__adapter_split_map") =>
